@@ -1,6 +1,6 @@
 (* C06 — distances are well-defined numbers. *)
 From Coq Require Import Floats ZArith List.
-From Syz Require Import Quant Dist DistProofs.
+From Syz Require Import Quant Dist DistProofs DistSym.
 Import ListNotations.
 
 (* Euclidean distance of finite vectors: never NaN, sign bit clear (so >= +0), for all magnitudes *)
@@ -36,3 +36,15 @@ Print Assumptions C06_cos_range.
 (* the former counterexample: the cosine distance of [0.5; 0.25; 0.1] to itself is 0, not NaN *)
 Example C06_former_nan : bits64 (angular [0.5; 0.25; 0.1] [0.5; 0.25; 0.1])%float = 0%Z.
 Proof. vm_compute. reflexivity. Qed.
+
+(* symmetry, bit for bit: the Euclidean distance on finite vectors of equal dimension ((x-y)^2 and (y-x)^2 are the
+   same binary64 number even when the difference overflows), the cosine distance on all vectors of equal
+   dimension and for every acos (products commute, sums are taken in the same order) *)
+Theorem C06_euclid_symmetric : forall a b, Forall finite_f a -> Forall finite_f b -> length a = length b ->
+  euclid a b = euclid b a.
+Proof. exact euclid_sym. Qed.
+Print Assumptions C06_euclid_symmetric.
+
+Theorem C06_cosine_symmetric : forall a b, length a = length b -> angular a b = angular b a.
+Proof. intros a b. apply angular_sym. Qed.
+Print Assumptions C06_cosine_symmetric.
